@@ -56,15 +56,22 @@ partial def buildTree : List Ev → List Node × List Ev
 
 def reply (l : Str) : String := "ok " ++ Driver.hexOfUnits l
 
-def runFormatter (f : Formatter) (evs : List Ev) : String :=
+def runFormatter (f : Formatter) (evs : List Ev) (ns : List Str := []) : String :=
   match f with
-  | .xml c k r => reply (renderAll r (serialize cc c k evs))
+  | .xml c k r => reply (renderAll { r with cdataRepaired := XalanModel.Generated.C08.cdataCharsRepaired } (serialize cc c k evs))
   | .text _ => reply (textMethod evs)
   | .html enc dsys dpub doIndent amount esc om =>
     match Html.serializeHtml { encoding := enc, doctypeSystem := dsys, doctypePublic := dpub, doIndent := doIndent,
-                               indent := amount, escapeURLs := esc, omitMeta := om } evs with
+                               indent := amount, escapeURLs := esc, omitMeta := om, nsPrefixes := ns,
+                               rawSetsPrevText := XalanModel.Generated.C08.legacyRawSetsPrevText } evs with
     | some out => reply out
     | none => "nomodel"
+
+/-- prefixes declared by `xmlns:p` attributes of the top-level elements (the generator declares them on the root) -/
+def declaredPrefixes (tree : List Node) : List Str :=
+  tree.flatMap fun n => match n with
+    | .elem _ attrs _ => attrs.filterMap fun a => if (s "xmlns:").isPrefixOf a.1 && !a.2.isEmpty then some (a.1.drop 6) else none
+    | _ => []
 
 def yn (v : String) : Option Bool := if v = "yes" then some true else if v = "no" then some false else none
 
@@ -116,7 +123,7 @@ def step (_ : Unit) : List String → Unit × String
         | "html" => some (Formatter.html enc dsys dpub ind amount (esc = "1") (om = "1"))
         | "text" => some (Formatter.text enc)
         | _ => none
-      some (runFormatter f evs)).getD "bad")
+      some (runFormatter f evs [s "m", s "svg"])).getD "bad")
   | "xf" :: apiIndent :: apiEnc :: apiOm :: apiEu :: _sheet :: rest =>
     ((), (do
       let ai ← apiIndent.toInt?
@@ -134,7 +141,7 @@ def step (_ : Unit) : List String → Unit × String
       let cd := match f with
         | .xml _ _ _ => o.cdataElems
         | _ => []
-      some (runFormatter f (kidsEvents cd false tree))).getD "bad")
+      some (runFormatter f (kidsEvents cd false tree) (declaredPrefixes tree))).getD "bad")
   | _ => ((), "bad")
 
 end Driver.C08
